@@ -25,6 +25,8 @@ impl<'a> BerDecoder<'a> for SnmpReal {
         if h.is_empty() {
             return Ok(SnmpReal(0.0));
         }
+        // Content octets only
+        let i = &i[..h.length];
         // 8.5.6: Check encoding
         Ok(SnmpReal(match i[0] {
             f if f & 0x80 == 0x80 => {
@@ -42,6 +44,9 @@ impl<'a> BerDecoder<'a> for SnmpReal {
                 // 8.5.7.4 Bits 2 to 1 of the first contents octet
                 // shall encode the format of the exponent as follows:
                 let ln = (f & 0x03) as usize + 2;
+                if i.len() < ln {
+                    return Err(SnmpError::InvalidData);
+                }
                 let e = SnmpReal::parse_u32(&i[1..ln]) as i32;
                 let mut v: f64 = SnmpReal::parse_u32(&i[ln..]).into();
                 // 8.5.7.3: Bits 4 to 3 of the first contents octet shall
